@@ -25,7 +25,14 @@ func classifyEff(eff string, classes []effClass) string {
 	for _, c := range classes {
 		ok := true
 		for _, m := range c.Must {
-			if !strings.Contains(eff, m) {
+			// "a||b": either spelling of the same effect
+			any := false
+			for _, alt := range strings.Split(m, "||") {
+				if strings.Contains(eff, alt) {
+					any = true
+				}
+			}
+			if !any {
 				ok = false
 			}
 		}
@@ -334,7 +341,7 @@ func c02(c *Ctx) {
 			{"end-of-name", []string{"return lexKey"}, []string{"store"}},
 			{"error", []string{"store l.err <- global:errMissingKeySep", "return nil"}, nil},
 			{"keep", []string{"loop"}, []string{"store", "call"}},
-			{"delete", []string{"call builtin append", "store l.input <-", "store l.len <- (l.len-1)", "store l.pos <- (l.pos-1)", "loop"}, []string{"l.err"}},
+			{"delete", []string{"call builtin append||call builtin copy", "store l.input <-", "store l.len <- (l.len-1)", "store l.pos <- (l.pos-1)", "loop"}, []string{"l.err"}},
 		}
 		checkByteTable(c, r, fn, classes, func(b int) string {
 			switch {
@@ -351,17 +358,28 @@ func c02(c *Ctx) {
 			}
 			return "delete"
 		})
-		// the deleting append moves the suffix left inside l.input: append(l.input[0:pos-1], l.input[pos:]...)
+		// the deletion moves the suffix left inside l.input, over the byte just read:
+		// append(l.input[:pos-1], l.input[pos:]...)  or  copy(l.input[pos-1:], l.input[pos:]) followed by a reslice
 		ok := false
 		eachInstr(fn, func(in ssa.Instruction) {
-			if cl, isC := in.(*ssa.Call); isC && isCall(cl, "builtin append") {
+			cl, isC := in.(*ssa.Call)
+			if !isC {
+				return
+			}
+			if isCall(cl, "builtin append") {
 				a0, a1 := pathOf(cl.Call.Args[0]), pathOf(cl.Call.Args[1])
-				if a0 == "l.input[0:(l.pos-1)]" && a1 == "l.input[l.pos:]" {
+				if (a0 == "l.input[0:(l.pos-1)]" || a0 == "l.input[:(l.pos-1)]") && strings.HasPrefix(a1, "l.input[l.pos:") {
+					ok = true
+				}
+			}
+			if isCall(cl, "builtin copy") {
+				a0, a1 := pathOf(cl.Call.Args[0]), pathOf(cl.Call.Args[1])
+				if strings.HasPrefix(a0, "l.input[(l.pos-1):") && strings.HasPrefix(a1, "l.input[l.pos:") {
 					ok = true
 				}
 			}
 		})
-		r.Check("lexKeySep:delete-shape", ok, fn.Pos(), "deletion is append(l.input[0:pos-1], l.input[pos:]...)")
+		r.Check("lexKeySep:delete-shape", ok, fn.Pos(), "deletion shifts l.input[pos:] onto l.input[pos-1:] (append or copy form)")
 	})
 
 	c.Rule("C02.R3b", "attribute introducers: '|' continues, end accepts, anything else is an error; '@' rate, '#' tags, other fields skipped; '_' selects events", 9, func(r *Rule) {
